@@ -1,7 +1,82 @@
-(* Props/C01.v — placeholder while the model is being validated; theorems follow. *)
-From YQ Require Import Base.Str Model.Node Model.Store Model.Eval.
+(* Props/C01.v — property theorems only.
+   The reference semantics of the core expression language IS Model/Eval.v
+   (handler by handler from operator_*.go); that the implementation computes
+   it is what the correspondence check establishes on every run.  The theorems
+   are the structural laws the property names, for arbitrary sub-expressions,
+   and the independence of the answer from the fuel. *)
+From YQ Require Import Base.Str Model.Node Model.Store Model.Eval Proofs.EvalLaws Proofs.EvalFuel.
+
+(* `|` composes *)
 Theorem C01_pipe_composes : forall f l r ro vs ctx st,
   eval (S f) (EPipe l r) ro vs ctx st =
   bind (eval f l ro vs ctx st) (fun ol => eval f r ro vs (fst ol) (snd ol)).
-Proof. reflexivity. Qed.
+Proof. exact pipe_composes. Qed.
 Print Assumptions C01_pipe_composes.
+
+(* `,` concatenates its operands' results *)
+Theorem C01_union_appends : forall f l r ro vs ctx st,
+  (returns_ctx l && returns_ctx r)%bool = false ->
+  eval (S f) (EUnion l r) ro vs ctx st =
+  bind (eval f l ro vs ctx st) (fun ol =>
+  bind (eval f r ro vs ctx (snd ol)) (fun or_ => Ok (fst ol ++ fst or_, snd or_))).
+Proof. exact union_appends. Qed.
+Print Assumptions C01_union_appends.
+
+(* ... except when both operands hand back the context's own list (known finding union-same-list) *)
+Theorem C01_union_same_list_refuted : exists doc,
+  run (EUnion ESelf ESelf) doc = tag_ok ++ ser_node doc ++ [10].
+Proof. exists (Scalar TInt [50]). vm_compute. reflexivity. Qed.
+Print Assumptions C01_union_same_list_refuted.
+
+(* binary operators pair each left result with each right result, per input node, left-major *)
+Theorem C01_cross_left_major : forall ev calc lhs rhs ro vs c st,
+  cross ev false no_short calc lhs rhs ro vs [c] st =
+  bind (bind (ev lhs ro vs [c] st) (fun ol =>
+          bind (Ok ([], snd ol)) (fun o0 =>
+          bind (each (fun l st1 =>
+                        bind (ev rhs ro vs [c] st1) (fun orr =>
+                          match fst orr with
+                          | [] => Ok ([], snd orr)
+                          | rs => each (fun r st2 => calc st2 (Some l) (Some r)) rs (snd orr)
+                          end)) (fst ol) (snd o0))
+               (fun o1 => Ok (fst o0 ++ fst o1, snd o1)))))
+       (fun o1 => bind (Ok ([], snd o1)) (fun o2 => Ok (fst o1 ++ fst o2, snd o2))).
+Proof. exact cross_left_major. Qed.
+Print Assumptions C01_cross_left_major.
+
+Theorem C01_cross_per_input_node : forall ev cwe short calc lhs rhs ro vs c cs st,
+  cross ev cwe short calc lhs rhs ro vs (c :: cs) st =
+  each (fun c0 st0 => cross1 ev cwe short calc lhs rhs ro vs [c0] st0) (c :: cs) st.
+Proof. exact cross_per_input_node. Qed.
+Print Assumptions C01_cross_per_input_node.
+
+(* every operator maps the whole list of current nodes to a new list: e.g.
+   [e] gives one sequence per input node, select(e) a sub-list in order *)
+Theorem C01_collect_one_per_node : forall f eo ro vs ctx st o,
+  ctx <> [] -> eval (S f) (ECollect eo) ro vs ctx st = Ok o -> length (fst o) = length ctx.
+Proof. exact collect_one_per_node. Qed.
+Print Assumptions C01_collect_one_per_node.
+
+Theorem C01_select_sublist : forall f e ro vs ctx st o,
+  eval (S f) (ESelect e) ro vs ctx st = Ok o -> exists mask, length mask = length ctx /\
+    fst o = List.map snd (filter fst (combine mask ctx)).
+Proof. exact select_sublist. Qed.
+Print Assumptions C01_select_sublist.
+
+(* unbounded nesting: the answer (results, error, panic) does not depend on the fuel once sufficient *)
+Theorem C01_fuel_independent : forall f f' e ro vs ctx st r,
+  (f <= f')%nat -> eval f e ro vs ctx st = r -> r <> OutOfFuel -> eval f' e ro vs ctx st = r.
+Proof. exact eval_fuel_mono. Qed.
+Print Assumptions C01_fuel_independent.
+
+(* non-vacuity: a multi-result product, left-major, and an error defined by the semantics *)
+Example C01_example_product :
+  run (EBin OAdd (EIndex ESelf None) (EIndex ESelf None))
+      (Seq [(RIdx 0, Scalar TInt [49]); (RIdx 1, Scalar TInt [50])])
+  = tag_ok ++ ser_node (Scalar TInt [50]) ++ [10] ++ ser_node (Scalar TInt [51]) ++ [10]
+           ++ ser_node (Scalar TInt [51]) ++ [10] ++ ser_node (Scalar TInt [52]) ++ [10].
+Proof. vm_compute. reflexivity. Qed.
+
+Example C01_example_error :
+  run (EBin OAdd (ELit TInt [49]) (ECollect None)) (Scalar TNull []) = [69; 82; 82].
+Proof. vm_compute. reflexivity. Qed.
